@@ -19,8 +19,8 @@ from vlib.util import diff_path
 PROPERTY = 'C19'
 RULE = ('histories over 6 IPv4 prefixes (incl. /0 and /32), 3 attribute sets, 3 flowspec rules, 3 VPNv4 routes: peer '
         'announce/withdraw/re-announce (same, changed)/mixed, flowspec and VPNv4 reach/unreach, operator sends of the same '
-        'shapes, one peer UPDATE carrying IPv4 withdrawals together with a flowspec / VPNv4 MP attribute, session drop and '
-        're-establishment; plus all sequences of length <= 3 (4 in thorough) over a 2-prefix '
+        'shapes, one peer UPDATE carrying IPv4 withdrawals together with a flowspec / VPNv4 MP attribute, session drop (peer '
+        'close, peer NOTIFICATION, header error, operator stop/start) and re-establishment; plus all sequences of length <= 3 (4 in thorough) over a 2-prefix '
         '2-attribute alphabet. Non-trivial = history contains a withdraw of a present route or a re-announce with changed '
         'attributes; distinct by operation sequence.')
 ASSUMPTIONS = ['rib=True; counters and tables are those of the current connection (a new session starts from zero)',
@@ -98,8 +98,21 @@ class Run(object):
         changed = {'received': set(), 'send': set()}
         nerr = len(sim.errors)
         if k == 'drop':
-            r.peer_close(self.c)
+            how = op[1] if len(op) > 1 else 'close'
+            if how == 'notif':
+                r.peer_send(self.c, rc.notification(6, 4))          # the agent closes after the peer's NOTIFICATION
+            elif how == 'marker':
+                r.peer_send(self.c, b'\x00' * 19)                    # the agent closes after a header error
+            elif how == 'stop':
+                sim.manual_stop()                                    # the operator stops and restarts the peer
+                r.settle(fire_due=True)
+                sim.manual_start()
+            else:
+                r.peer_close(self.c)
             r.settle(fire_due=True)
+            if ss.live_connectors(sim) and how != 'stop':
+                r.peer_close(ss.live_connectors(sim)[-1])
+                r.settle(fire_due=True)
             proto = self.c.protocol
             if any(proto.adj_rib_in.get(f) for f in proto.adj_rib_in):
                 out.append(('rib-not-empty-after-drop', 'adj_rib_in after connectionLost: %r' % (proto.adj_rib_in,)))
@@ -345,7 +358,7 @@ op_strategy = st.one_of(
         lambda t: ['fs-ann2', t[1], (t[2] if t[2] != t[1] else (t[1] + 1) % 3), t[3]]),
     st.tuples(st.just('xfam'), idxs, st.sampled_from(['fs-ann', 'fs-wd', 'vpn-ann', 'vpn-wd']), st.integers(0, 2),
               st.sampled_from([16, 17])).map(list),
-    st.just(['drop']),
+    st.sampled_from([['drop'], ['drop', 'notif'], ['drop', 'marker'], ['drop', 'stop']]),
 )
 
 
@@ -360,7 +373,7 @@ def run_shard(spec, seed, col, tier):
     if spec['kind'] == 'exh':
         alpha = [['ann', [1], 0, 'peer'], ['ann', [1], 1, 'peer'], ['ann', [1], 3, 'peer'], ['ann', [1], 4, 'rest'], ['ann', [1], 3, 'rest'], ['ann', [2], 0, 'peer'], ['ann', [1, 2], 1, 'peer'],
                  ['wd', [1], 'peer'], ['wd', [2], 'peer'], ['mixed', [1], 0, [2], 'peer'], ['ann', [1], 0, 'rest'], ['wd', [1], 'rest'],
-                 ['drop'], ['vpn-ann2', 0, 16, 1, 17, 'peer'], ['vpn-ann', 0, 16, 'peer'], ['vpn-ann', 0, 17, 'peer'], ['vpn-wd', 0, 'peer'],
+                 ['drop'], ['drop', 'notif'], ['vpn-ann2', 0, 16, 1, 17, 'peer'], ['vpn-ann', 0, 16, 'peer'], ['vpn-ann', 0, 17, 'peer'], ['vpn-wd', 0, 'peer'],
                  ['fs-ann2', 0, 1, 'peer'], ['fs-wd', 0, 'peer'], ['xfam', [1], 'fs-wd', 0, 16], ['xfam', [2], 'vpn-ann', 0, 17]]
         seqs = list(itertools.product(range(len(alpha)), repeat=spec['len']))[spec['part']::spec['parts']]
         for s in seqs:
